@@ -87,6 +87,21 @@ def abort_points(sc):
     return pts
 
 
+def interrupt_bounds(sc, r):
+    """(kmin, kmax) boards in the log for an interrupt at the point where the main thread of run `r` stopped"""
+    ops = r.ops.get('main', [])
+    g = sum(1 for o in ops if o[0] == 'get')
+    cum, kmax = 0, 0
+    for n in main_gets(sc):
+        cum += n
+        if cum <= g:
+            kmax += 1
+    nb = sum(1 for o in ops if o[0] == 'put' and o[2] == 'next board')
+    end = any(o[0] == 'put' and o[2] == 'End of session' for o in ops)
+    kmin = min(kmax, (nb + 3) // 4 + (1 if end else 0))
+    return kmin, kmax
+
+
 def main_gets(sc):
     """number of Queue.get calls of the main thread per board of the un-aborted session: one per call, one per card"""
     out = []
@@ -107,9 +122,25 @@ def run_abort(ctx, driver, sc, model, fault=None, inject=None, policy=None):
     ctx.count('_cases')
     ctx.count('_evals', r.steps)
     ctx.count('abort_sessions')
-    k = fault['board'] if fault else inject['board']
-    ctx.count('aborts_in_first_board' if k == 0 else 'aborts_in_later_board')
     fails = []
+    if inject is not None and inject.get('op') == 'yield':
+        # an interrupt between two arbitrary steps of the main thread: the boards that MUST be in the log are those after
+        # which the server has already announced the next board (or the end of the session); a board whose last call /
+        # card the server has not received yet must NOT be in it; in between (result being worked out) either is right
+        kmin, kmax = interrupt_bounds(sc, r)
+        try:
+            logged = len(json.loads(r.log_text)['logs'])
+        except Exception:
+            logged = None
+        if logged is not None and kmin <= logged <= kmax:
+            k = logged
+        else:
+            k = kmin
+        ctx.count('interrupt_between_boards' if kmin == kmax and kmin > 0 and any(
+            o[0] == 'put' and o[2] == 'next board' for o in r.ops.get('main', [])[-12:]) else 'interrupt_elsewhere')
+    else:
+        k = fault['board'] if fault else inject['board']
+    ctx.count('aborts_in_first_board' if k == 0 else 'aborts_in_later_board')
 
     def fail(key, detail, kind='counterexample'):
         fails.append({'key': key, 'kind': kind, 'scenario': sc, 'policy': pdesc, 'schedule': r.schedule,
@@ -181,6 +212,20 @@ def extra_checks(ctx):
         for k, g in enumerate(gets):
             ints += [{'thread': 'main', 'op': 'get', 'k': base + m + 1, 'board': k} for m in range(g)]
             base += g
+        # interrupts between ANY two synchronisation steps of the main thread once the boards have begun (barrier waits,
+        # queue puts, ...): the yield numbers come from an undisturbed run of the same scenario
+        import session_props as SP0
+        ref = session.run_session(sc, SP0.make_policy({'kind': 'lowest'}), ctx.workdir, max_steps=400000)
+        mops, mat = ref.ops.get('main', []), ref.ops_at.get('main', [])
+        first_put = next((i for i, o in enumerate(mops) if o[0] == 'put'), len(mops))
+        cand = [(mat[i], mops[i]) for i in range(first_put, len(mops)) if mops[i][0] != 'join']
+        special = [y for y, o in cand if o[0] in ('arrive', 'depart') or (o[0] == 'put' and o[2] in ('next board', 'End of session'))
+                   or (o[0] == 'put' and isinstance(o[2], str) and o[2].startswith('Board number'))]
+        if sample is not None:
+            ys = sorted(set(prng.sample(special, min(len(special), 10)) + prng.sample([y for y, _ in cand], min(len(cand), 6))))
+        else:
+            ys = sorted({y for y, _ in cand})
+        yints = [{'thread': 'main', 'op': 'yield', 'k': y} for y in ys]
         jobs = [('fault', p) for p in pts] + [('int', i) for i in ints]
         if sample is not None:
             # stratified sample: every kind, first / middle / last positions, every board
@@ -193,17 +238,17 @@ def extra_checks(ctx):
                 idx = sorted({0, len(l) // 2, len(l) - 1, prng.randrange(len(l))})
                 picked += [l[i] for i in idx][:2 if len(by_kind) > 12 else 3]
             prng.shuffle(picked)
-            jobs = picked[:sample * 4]
+            jobs = picked[:sample * 4] + [('yint', i) for i in yints]
         else:
-            jobs = jobs[ctx.shard::ctx.nshards]
+            jobs = (jobs + [('yint', i) for i in yints])[ctx.shard::ctx.nshards]
         for kind, d in jobs:
             if kind == 'fault':
                 ctx.count('kind_' + d[3])
                 ctx.distinct.add(hash((json.dumps(sc, sort_keys=True), d)))
                 fails += run_abort(ctx, driver, sc, model, fault=fault_of(d))
             else:
-                ctx.count('kind_interrupt')
-                ctx.distinct.add(hash((json.dumps(sc, sort_keys=True), 'int', d['k'])))
+                ctx.count('kind_interrupt' if kind == 'int' else 'kind_interrupt_any_step')
+                ctx.distinct.add(hash((json.dumps(sc, sort_keys=True), kind, d['k'])))
                 fails += run_abort(ctx, driver, sc, model, inject=d)
             if len(fails) > 20:
                 return fails
